@@ -14,6 +14,16 @@ use std::sync::OnceLock;
 pub mod c10;
 pub mod c11;
 pub mod c12;
+pub mod refmon;
+
+/// indices of the W-corpus entries that lie inside the C01 fragment (decided by the fragment parser)
+pub fn fragment_entries() -> &'static Vec<usize> {
+    static F: OnceLock<Vec<usize>> = OnceLock::new();
+    F.get_or_init(|| {
+        let c = corpus();
+        (0..c.entries.len()).filter(|&i| wgen::in_fragment(&c.world(i))).collect()
+    })
+}
 
 pub fn corpus() -> &'static Corpus {
     static C: OnceLock<Corpus> = OnceLock::new();
@@ -27,6 +37,15 @@ pub fn pick_world(rng: &mut Rng, base: u64, idx: u64, wgen_pct: u32, profile: wg
         return wgen::gen_world(rng, profile);
     }
     let c = corpus();
+    if profile == wgen::Profile::Fragment {
+        let list = fragment_entries();
+        if list.is_empty() {
+            return wgen::gen_world(rng, profile);
+        }
+        let mut order: Vec<usize> = list.clone();
+        Rng::new(base ^ 0xF4A6).shuffle(&mut order);
+        return c.world(order[(idx as usize) % order.len()]);
+    }
     let mut k = idx;
     loop {
         let e = corpus_pick(c, base ^ 0xC0_4B05, k);
@@ -46,10 +65,14 @@ pub fn usable_goals(world: &World, kinds: &[&str]) -> Vec<usize> {
     }
 }
 
-pub const ALL: &[&str] = &["C10", "C11", "C12"];
+pub const ALL: &[&str] = &["C01", "C02", "C05", "C06", "C10", "C11", "C12"];
 
 pub fn meta(check: &str) -> CheckMeta {
     match check {
+        "C01" => refmon::meta(refmon::Mode::C01),
+        "C02" => refmon::meta(refmon::Mode::C02),
+        "C05" => refmon::meta(refmon::Mode::C05),
+        "C06" => refmon::meta(refmon::Mode::C06),
         "C10" => c10::meta(),
         "C11" => c11::meta(),
         "C12" => c12::meta(),
@@ -59,6 +82,10 @@ pub fn meta(check: &str) -> CheckMeta {
 
 pub fn n_runs(check: &str, tier: &str) -> u64 {
     match check {
+        "C01" => refmon::n_runs(refmon::Mode::C01, tier),
+        "C02" => refmon::n_runs(refmon::Mode::C02, tier),
+        "C05" => refmon::n_runs(refmon::Mode::C05, tier),
+        "C06" => refmon::n_runs(refmon::Mode::C06, tier),
         "C10" => c10::n_runs(tier),
         "C11" => c11::n_runs(tier),
         "C12" => c12::n_runs(tier),
@@ -68,12 +95,20 @@ pub fn n_runs(check: &str, tier: &str) -> u64 {
 
 /// per-run wall-clock guard in seconds (harness safety net only)
 pub fn timeout_s(check: &str, tier: &str) -> u64 {
-    let _ = (check, tier);
-    60
+    let _ = tier;
+    match check {
+        "C09" => 30,
+        "C05" => 5,
+        _ => 15,
+    }
 }
 
 pub fn gen(check: &str, tier: &str, seed: u64, idx: u64, base: u64) -> Value {
     let spec = match check {
+        "C01" => refmon::gen(refmon::Mode::C01, tier, seed, idx, base),
+        "C02" => refmon::gen(refmon::Mode::C02, tier, seed, idx, base),
+        "C05" => refmon::gen(refmon::Mode::C05, tier, seed, idx, base),
+        "C06" => refmon::gen(refmon::Mode::C06, tier, seed, idx, base),
         "C10" => c10::gen(tier, seed, idx, base),
         "C11" => c11::gen(tier, seed, idx, base),
         "C12" => c12::gen(tier, seed, idx, base),
@@ -89,14 +124,14 @@ pub fn timeouts_are_violations(check: &str) -> bool {
 /// corpus triage pseudo-check: how does one (entry, goal, solver kind) behave in isolation?
 fn exec_triage(spec: &Value, r: &mut RunResult) {
     let c = corpus();
-    let (e, gi) = (spec["entry"].as_u64().unwrap() as usize, spec["goal"].as_u64().unwrap() as usize);
+    let (e, gi) = (spec["entry"].as_u64().unwrap_or(0) as usize, spec["goal"].as_u64().unwrap() as usize);
     let kind = spec["kind"].as_str().unwrap();
     let cfg = match kind {
         "slg" => SlotCfg::slg(),
         "rec" => SlotCfg::rec(),
         _ => SlotCfg::rec_nocache(),
     };
-    let w = c.world(e);
+    let w = if let Some(wv) = spec.get("world") { serde_json::from_value::<World>(wv.clone()).unwrap() } else { c.world(e) };
     let mut l = match lower(&w) {
         Ok(l) => l,
         Err(_) => {
@@ -113,6 +148,7 @@ fn exec_triage(spec: &Value, r: &mut RunResult) {
         }
         let mut memo = FreshMemo::new();
         let out = memo.get(&l, &cfg, gi, &OpKind::Solve, crate::simdb::DEFAULT_BUDGET).0.clone();
+        r.sample = Some(serde_json::json!(fmt_out(&out)));
         match out {
             Out::Budget => r.violate("budget", String::new(), None),
             Out::Panic(m) => r.violate(&format!("panic:{}", m.chars().take(80).collect::<String>()), String::new(), None),
@@ -133,6 +169,10 @@ pub fn exec(check: &str, spec: &Value, r: &mut RunResult) {
         }
     };
     match check {
+        "C01" => refmon::exec(refmon::Mode::C01, &spec, r),
+        "C02" => refmon::exec(refmon::Mode::C02, &spec, r),
+        "C05" => refmon::exec(refmon::Mode::C05, &spec, r),
+        "C06" => refmon::exec(refmon::Mode::C06, &spec, r),
         "C10" => c10::exec(&spec, r),
         "C11" => c11::exec(&spec, r),
         "C12" => c12::exec(&spec, r),
